@@ -3,9 +3,12 @@
   Property theorems only (the process-layer model is CimbaModel/Sim; helper lemmas in CimbaModel/Sim/*).
 -/
 import CimbaModel.Sim.Basic
+import CimbaModel.Sim.S3Hold
 
 namespace CimbaModel.Props.C04
-open CimbaModel CimbaModel.Sim CimbaModel.Event
+open CimbaModel CimbaModel.Sim CimbaModel.Event CimbaModel.Generated CimbaModel.KPQ
+open CimbaModel.Sim.S3
+open CimbaModel.HashHeap (HTag)
 
 /-- a timer (and hence a hold, which is a timer with the success code) armed for `d ≥ 0` is a pending event at
     exactly now + d, addressed to the process and carrying the signal; arming does not move the clock -/
@@ -45,5 +48,155 @@ theorem signal_roundtrip (s : Int) (h : -(2 ^ 63 : Int) ≤ s ∧ s < 2 ^ 63) : 
       have : ((s + 2 ^ 64).toNat : Int) < 2 ^ 63 := by exact_mod_cast hlt
       omega
     · rw [h2]; omega
+
+
+/-! ### ClockInv: nothing but `dispatch` moves the clock, nothing is ever scheduled in the past
+
+`Evo w w'` (Sim/S3Evo.lean) is the footprint every function of the process layer has on the event kernel: the clock is
+the same, the kernel invariant `EvInv` (every issued handle in exactly one of pending / executed / cancelled; nothing
+pending in the past) is preserved, a recorded fault is never cleared, handles only grow, and an event that keeps its
+handle keeps its time, action, subject and signal. -/
+
+/-- `sched` never schedules in the past: either the time is not before the current time and exactly one event is
+    added, or the request is refused — the event queue is left as it is and a fault is recorded -/
+theorem sched_not_in_past (w : World) (act subj : Nat) (sig t pri : Int) :
+    (w.now ≤ t ∧ sched w act subj sig t pri = (pushEv w act subj sig t pri, w.ev.counter + 1)) ∨
+    (t < w.now ∧ ∃ m, sched w act subj sig t pri = (w.fail m, 0)) :=
+  sched_cases w act subj sig t pri
+
+/-- every command, every resumption of a suspended call, the end of a process and a whole activation of a process keep
+    the clock, the kernel invariant, recorded faults and the data of pending events — for all programs, no hypothesis -/
+theorem process_layer_keeps_clock (w : World) (p : Pid) :
+    (∀ c, Evo w (execCmd w p c).1) ∧ (∀ f sig, Evo w (resumeFrame w p f sig).1) ∧
+    (∀ v s, Evo w (finishProc w p v s)) ∧ (∀ fuel, Evo w (runScript fuel w p)) ∧ (∀ sig, Evo w (resumeProc w p sig)) ∧
+    (∀ g, Evo w (signal w g)) ∧ Evo w (cancelAwaiteds w p) :=
+  ⟨fun c => (Evo.refl w).execCmd_fst p c, fun f sig => (Evo.refl w).resumeFrame_fst p f sig,
+   fun v s => (Evo.refl w).finishProc p v s, fun fuel => Evo.runScript fuel (Evo.refl w) p,
+   fun sig => (Evo.refl w).resumeProc p sig, fun g => (Evo.refl w).signal g, (Evo.refl w).cancelAwaiteds p⟩
+
+/-- what `Evo` says, spelled out -/
+theorem evo_means {w w' : World} (h : Evo w w') :
+    w'.now = w.now ∧ (EvInv w.ev → EvInv w'.ev) ∧ (w'.fault = none → w.fault = none) ∧ w.ev.counter ≤ w'.ev.counter ∧
+    (∀ e' ∈ w'.ev.pending, e'.key ≤ w.ev.counter → ∃ e ∈ w.ev.pending, e.key = e'.key ∧ e.d = e'.d ∧ e.item = e'.item) :=
+  ⟨h.wnow, h.evinv, h.fault, h.counter, h.stable⟩
+
+/-- `dispatch` sets the clock to the time of the dispatched event — the (time, −priority, handle)-minimum of the pending
+    set —, which is never earlier than the clock was; afterwards again nothing is pending in the past -/
+theorem dispatch_sets_clock {w w' : World} (hi : EvInv w.ev) (hd : dispatch w = some w') :
+    (∃ e ∈ w.ev.pending, (∀ x ∈ w.ev.pending, heap_order_check x e = false) ∧ w'.now = e.d ∧
+      w'.ev.executed = e.key :: w.ev.executed ∧ w'.ev.current = e.key) ∧
+    w.now ≤ w'.now ∧ EvInv w'.ev ∧ (∀ e ∈ w'.ev.pending, w'.now ≤ e.d) ∧ (w'.fault = none → w.fault = none) := by
+  have h := dispatch_clock hi hd
+  exact ⟨h.ev, h.mono, h.evinv, h.evinv.timeOk, h.fault⟩
+
+/-- `ClockInv` in every reachable state: along any run from a state satisfying the kernel invariant (the initial state
+    does), the invariant holds, the clock and the handle counter never decrease, a fault is never cleared, and a pending
+    event keeps its time, action, subject and signal as long as it is pending -/
+theorem clock_inv_reachable {w w' : World} (h : Reach w w') (hi : EvInv w.ev) :
+    EvInv w'.ev ∧ w.now ≤ w'.now ∧ w.ev.counter ≤ w'.ev.counter ∧ (w'.fault = none → w.fault = none) ∧
+    w'.procs.size = w.procs.size ∧
+    (∀ e' ∈ w'.ev.pending, e'.key ≤ w.ev.counter → ∃ e ∈ w.ev.pending, e.key = e'.key ∧ e.d = e'.d ∧ e.item = e'.item) :=
+  h.clock hi
+
+theorem clock_inv_run (fuel : Nat) (w : World) (hi : EvInv w.ev) :
+    EvInv (runAll fuel w).ev ∧ w.now ≤ (runAll fuel w).now ∧ ((runAll fuel w).fault = none → w.fault = none) ∧
+      w.ev.counter ≤ (runAll fuel w).ev.counter :=
+  runAll_clock fuel w hi
+
+/-! ### hold -/
+
+/-- `hold d` (d ≥ 0) arms exactly one event — fresh handle h, action aTime, addressed to the caller, carrying SUCCESS,
+    due at exactly now + d, with the caller's priority —, registers TIME(h) in the caller's awaits and suspends it in
+    the frame `hold h`; the clock does not move -/
+theorem hold_arms (w : World) (p : Pid) (d : Int) (hd : 0 ≤ d) :
+    execCmd w p (.hold d) = (holdWorld w p d, .blocked) ∧
+    (holdWorld w p d).ev.pending =
+      mkEv (w.ev.counter + 1) aTime (p + 1) sigSuccess (w.now + d) (w.proc p).prio :: w.ev.pending ∧
+    (holdWorld w p d).now = w.now ∧ (holdWorld w p d).ev.counter = w.ev.counter + 1 ∧
+    (p < w.procs.size → ((holdWorld w p d).proc p).blocked = some (.hold (w.ev.counter + 1)) ∧
+      ((holdWorld w p d).proc p).awaits = .time (w.ev.counter + 1) :: (w.proc p).awaits ∧
+      ((holdWorld w p d).proc p).status = (w.proc p).status) :=
+  hold_blocks w p d hd
+
+/-- `hold_exact`: a process executes `hold d` (d ≥ 0) at time t₀.  Whenever, after any number of dispatched events, the
+    event that is dispatched is the one with the handle the hold armed, the clock is exactly t₀ + d, and that event is
+    the (aTime, SUCCESS) wake-up addressed to that process -/
+theorem hold_exact {w0 : World} (p : Pid) {d : Int} (hd : 0 ≤ d) (hi : EvInv w0.ev) {w w' : World}
+    (hreach : Reach (execCmd w0 p (.hold d)).1 w) (hdisp : dispatch w = some w')
+    (hcur : w'.ev.current = w0.ev.counter + 1) :
+    w'.now = w0.now + d ∧
+    ∃ e ∈ w.ev.pending, e.key = w0.ev.counter + 1 ∧ e.d = w0.now + d ∧ e.item.a = aTime ∧ e.item.b = p + 1 ∧
+      e.item.c = encSig sigSuccess ∧ decSig e.item.c = sigSuccess :=
+  S3.hold_exact p hd hi hreach hdisp hcur
+
+/-- the dispatch of a timer event removes TIME(handle) from the awaits of its process and resumes it with the carried
+    value; a suspended hold returns exactly the value it is resumed with: SUCCESS without touching anything, any other
+    value after cancelling its own timer and forgetting it -/
+theorem hold_returns (w : World) (p : Pid) (h : Nat) (t : HTag) (sig : Int) :
+    (t.item.a = aTime → dispatchBody w t =
+      resumeProc (removeAwait w (t.item.b - 1) (.time t.key)).1 (t.item.b - 1) (decSig t.item.c)) ∧
+    (resumeFrame w p (.hold h) sig).2 = .ret sig "" ∧
+    resumeFrame w p (.hold h) sigSuccess = (w, .ret sigSuccess "") ∧
+    (sig ≠ sigSuccess → resumeFrame w p (.hold h) sig = ((removeAwait (timerCancel w p h).1 p (.time h)).1, .ret sig "")) :=
+  ⟨dispatchBody_time w t, resumeFrame_hold_ret w p h sig, resumeFrame_hold_success w p h, resumeFrame_hold_other w p h sig⟩
+
+/-- `dispatch` = take the minimum event, wake its waiters, run its action -/
+theorem dispatch_is (w : World) :
+    dispatch w = match executeNext w.ev with
+      | none => none
+      | some (t, ev') => some (dispatchBody (takeNext w t ev') t) := dispatch_eq w
+
+/-- so a SUCCESS return can only be caused by an event whose signal word is 0 -/
+theorem success_needs_zero_word (s : Int) : decSig (encSig s) = 0 ↔ encSig s = 0 :=
+  decSig_eq_zero (encSig_lt s)
+
+/-! ### never stuck: what a process waits for produces its wake-up at that very moment -/
+
+/-- the end of a process (return, exit, stop): every process registered as waiting for it has a wake-up (aProc) pending at
+    the current time, carrying SUCCESS (normal end) or STOPPED -/
+theorem finish_wakes_waiters (w : World) (p : Pid) (val : Int) (stopped : Bool) (q : Pid)
+    (hq : q ∈ ((finishPre w p stopped).proc p).waiters) :
+    (∃ e ∈ (finishProc w p val stopped).ev.pending, e.item.a = aProc ∧ e.item.b = q + 1 ∧
+      e.item.c = encSig (if stopped then sigStopped else sigSuccess) ∧ e.d = w.now ∧
+      e.i = ((finishPre w p stopped).proc q).prio) ∧
+    (finishProc w p val stopped).now = w.now :=
+  finishProc_wakes w p val stopped q hq
+
+/-- the execution of an event: every process registered as waiting for it has a wake-up (aEvent, SUCCESS) pending at the
+    time of the event before the event's own action runs, and the registrations are gone -/
+theorem event_wakes_waiters (w : World) (t : HTag) (ev' : EvQ) (q : Pid) (hq : q ∈ (w.evWaiters.lookup t.key).getD []) :
+    (∃ e ∈ (takeNext w t ev').ev.pending, e.item.a = aEvent ∧ e.item.b = q + 1 ∧ e.item.c = encSig sigSuccess ∧
+      e.d = ev'.now ∧ e.i = (w.proc q).prio) ∧
+    (takeNext w t ev').evWaiters = w.evWaiters.filter (·.1 ≠ t.key) :=
+  ⟨takeNext_wakes w t ev' q hq, takeNext_evWaiters w t ev'⟩
+
+/-- the cancellation of a scheduled event (whatever else is or is not in the event queue): its waiters have a wake-up
+    (aEvent, CANCELLED) pending at the current time, the event is gone; cancelling an unscheduled handle returns false and
+    changes nothing -/
+theorem cancel_wakes_waiters (w : World) (h : Nat) (hi : EvInv w.ev) :
+    (h ∈ keys w.ev.pending → (evCancel w h).2 = true ∧ h ∉ keys (evCancel w h).1.ev.pending ∧
+      ∀ q ∈ (w.evWaiters.lookup h).getD [],
+        ∃ e ∈ (evCancel w h).1.ev.pending, e.item.a = aEvent ∧ e.item.b = q + 1 ∧ e.item.c = encSig sigCancelled ∧
+          e.d = w.now ∧ e.i = (w.proc q).prio) ∧
+    (h ∉ keys w.ev.pending → evCancel w h = (w, false)) := by
+  constructor
+  · intro hk
+    refine ⟨by rw [evCancel_snd]; simp [hk], ?_, fun q hq => (evCancel_wakes w h hi hk q hq).2.1⟩
+    rw [evCancel_eq]
+    simp only [hk, if_true, pushAll_pending]
+    intro hmem
+    obtain ⟨e, he, hek⟩ := Event.mem_keys.1 hmem
+    rcases List.mem_append.1 he with he | he
+    · have h1 := (wakeEvs_props he).1
+      obtain ⟨e0, he0, hk0⟩ := Event.mem_keys.1 hk
+      have h2 := EvInv.key_le hi he0
+      simp only [cancelEv_counter] at h1
+      omega
+    · exact (mem_remove.1 he).2 hek
+  · intro hk; rw [evCancel_eq]; simp [hk]
+
+/- non-vacuity: the initial world satisfies the kernel invariant, so the hypotheses `EvInv w.ev`, `0 ≤ d` are satisfiable,
+   and a hold really arms an event there -/
+example : EvInv ({} : World).ev ∧ (holdWorld {} 0 5).ev.pending.length = 1 := ⟨Event.init_inv 0, rfl⟩
 
 end CimbaModel.Props.C04
